@@ -13,10 +13,15 @@ Engine A (bounded-exhaustive inputs, independent oracle in ``vf.c20_model``):
               block carries "typed twins" (x + 1, x + 1.0, x + True, x*2, x*2.0, and the
               hash-colliding x + -1, x + -2) in every pair of positions of stream b: the
               renamed stream is compared type-strictly, so nothing but names may change.
+              Another block varies how the caller's filter expresses yes / no (bool, match
+              object / None, count, numpy bool, name / empty string): only truthiness counts.
 * ``dot``     every labelled DAG on <= 4 (quick) / 5 (thorough) statements: the edges drawn by
               ``get_dot_dependency_graph`` == transitive reduction (longest-path criterion).
-* ``dot-chains`` chains of 6 (thorough: also 7) statements with at most one shortcut edge in every
-              statement order, and with every set of shortcut edges in natural / reversed order.
+* ``dot-chains`` chains of 6 statements with up to 2 shortcut edges (thorough: any set of shortcut
+              edges; also chains of 7 with <= 1) in EVERY listing order of the statements, each
+              with ids chosen so that every dependency set iterates in chain order and in
+              reverse chain order (first hash seed only: hash-independent by construction),
+              and with every set of shortcut edges in natural / reversed order (all seeds).
 
 Engine B (explicit-state BFS over histories of repeated fusion, family ``bfs``): state = a stream,
 initially empty; menu = fuse(state, P_j), disambiguate_and_fuse(state, P_j), fuse(P_j, state) for
@@ -27,6 +32,7 @@ reduction.  A violating transition is reported and not expanded.
 from __future__ import annotations
 
 import itertools
+import os
 
 from vf import c20_model as M
 from vf.c20_model import A, CA, N, Var
@@ -46,12 +52,18 @@ FUSE_MAX_LEN = {"quick": 2, "thorough": 3}    # longer ones (thorough) carry one
 # -- disamb family
 DISAMB_NAMES = {"quick": ("x", "x_0"), "thorough": ("x", "y", "x_0")}
 DISAMB_FILTERS = ("all", "none", "only:x")
+# how the caller's predicate says yes / no (bool, match object / None, count, numpy bool, str):
+# every non-bool style with every base filter, over the reduced bodies
+DISAMB_STYLE_FILTERS = tuple(f"{base}@{style}" for base in DISAMB_FILTERS
+                             for style in M.ANSWER_STYLES if style != "bool")
 DISAMB2_NAMES = ("x", "x_0")      # identifiers of the two-statement streams
 
 # -- dot family
 DOT_MAX_NODES = {"quick": 4, "thorough": 5}
 DOT_RANGE = 4096                  # edge masks per work item
 DOT_CHAIN_NODES = {"quick": (6,), "thorough": (6, 7)}   # long chains with shortcut edges
+# number of shortcut edges up to which EVERY listing order of the statements is explored
+DOT_CHAIN_FREE_ORDER = {("quick", 6): 2, ("thorough", 6): 10, ("thorough", 7): 1}
 
 # -- bfs family
 BFS_DEPTH = {"quick": 4, "thorough": 5}       # operations applied to the initially empty stream
@@ -237,7 +249,9 @@ def disamb_lists(tier):
     small = bodies_over(DISAMB2_NAMES, t2)
     single = [stream_of((b,)) for b in small]
     double = [stream_of((b, c)) for b in small for c in small]
-    return [(one, one), (single, double), (double, single), twin_lists()]
+    return [(one, one, DISAMB_FILTERS), (single, double, DISAMB_FILTERS),
+            (double, single, DISAMB_FILTERS), (*twin_lists(), DISAMB_FILTERS),
+            (single, single, DISAMB_STYLE_FILTERS)]
 
 # }}}
 
@@ -360,9 +374,14 @@ class C20(Check):
         "every pair of positions (rhs / lhs index / condition, same or different statement) "
         "filled with 7 'typed twin' expressions (x+1, x+1.0, x+True, x*2, x*2.0, x+-1, x+-2) "
         "against a clashing and a non-clashing first stream, compared type-strictly; every "
-        "labelled DAG on <= 4 (5) statements for the dot export, plus every 6 (7) statement chain "
-        "with <= 1 shortcut edge in every statement order and with every set of shortcut edges "
-        "in natural and reversed order. distinct_nontrivial counts "
+        "labelled DAG on <= 4 (5) statements for the dot export, plus every 6 statement chain "
+        "with <= 2 shortcut edges (thorough: every set of shortcut edges; also 7 statement "
+        "chains with <= 1) in every listing order of the statements, each with ids picked by "
+        "their hash so that all dependency sets iterate in chain order and in reverse chain "
+        "order (run under the first hash seed only), and with every set of "
+        "shortcut edges in natural and reversed order. Filters of the disamb family additionally "
+        "answer in 4 non-bool styles (match object / None, count, numpy bool, name / empty "
+        "string) x {all, none, {x}} over the reduced single-statement bodies. distinct_nontrivial counts "
         "distinct cases: statements whose reference read set is non-empty (rw), stream pairs "
         "with at least one id clash (fuse), pairs with at least one identifier clash "
         "(disamb), DAGs with at least one redundant (transitive) edge (dot), distinct canonical "
@@ -383,6 +402,10 @@ class C20(Check):
         "the dot text is read line by line: '\"id\" [..];' is a node, 'a -> b' an edge from a "
         "statement to one it depends on",
         "PYTHONHASHSEED values listed in hash_seeds are the only set-iteration orders explored",
+        "CPython small-set layout: ids with distinct hash & 31 < 8 iterate in that order "
+        "(asserted at run time on every pair before use)",
+        "a caller's should_disambiguate_name answer is interpreted by truthiness (as the "
+        "unchanged code does and as re.match / dict.get style predicates require)",
     ]
     hash_seeds = {"quick": [0, 1, 2], "thorough": [0, 1, 2, 3, 4, 5, 6, 7]}
     chunk = 8
@@ -420,12 +443,16 @@ class C20(Check):
                 for lo in range(0, total, DOT_RANGE):
                     yield ("range", n, lo, min(total, lo + DOT_RANGE))
 
+        # the every-listing-order part chooses its ids by their hash (ranked_names), so what it
+        # explores does not depend on the hash seed: it runs under the first seed only
+        first_seed = str(os.environ.get("PYTHONHASHSEED", "0")) == str(self.hash_seeds[tier][0])
+
         def chain_items():
             for k in DOT_CHAIN_NODES[tier]:
                 shortcuts = [(i, j) for i in range(k) for j in range(i + 2, k)]
-                yield ("chainorders", k, ())
-                for sc in shortcuts:
-                    yield ("chainorders", k, (sc,))
+                for r in range(DOT_CHAIN_FREE_ORDER[tier, k] + 1 if first_seed else 0):
+                    for extra in itertools.combinations(shortcuts, r):
+                        yield ("chainorders", k, extra)
                 total = 1 << len(shortcuts)
                 for lo in range(0, total, 512):
                     yield ("chainsubsets", k, lo, min(total, lo + 512))
@@ -434,7 +461,7 @@ class C20(Check):
             ("bfs", lambda: bfs_items(tier)),
             ("fuse", lambda: (("row", i) for i in range(len(self._fuse_streams(tier))))),
             ("disamb", lambda: (("drow", blk, i)
-                                for blk, (la, _) in enumerate(self._disamb_lists(tier))
+                                for blk, (la, _, _) in enumerate(self._disamb_lists(tier))
                                 for i in range(len(la)))),
             ("rw", rw_chunks),
             ("dot", dot_ranges),
@@ -465,10 +492,10 @@ class C20(Check):
                 self.do_case(r, ("daf", a, b, "all"), key=("fd", item[1], ib))
             r.sample = ("case", "fuse", a, streams[(item[1] * 7 + 3) % len(streams)], "all")
         elif tag == "drow":
-            la, lb = self._disamb_lists(tier)[item[1]]
+            la, lb, filters = self._disamb_lists(tier)[item[1]]
             a = la[item[2]]
             for ib, b in enumerate(lb):
-                for filt in DISAMB_FILTERS:
+                for filt in filters:
                     self.do_case(r, ("disamb", a, b, filt), key=("d", *item[1:], ib, filt))
                     self.do_case(r, ("daf", a, b, filt), key=("dd", *item[1:], ib, filt))
             r.sample = ("case", "disamb", a, lb[(item[2] * 5 + 1) % len(lb)], "only:x")
@@ -490,8 +517,10 @@ class C20(Check):
             self.do_dot_stream(r, item[1], None)
         elif tag == "chainorders":
             _, k, extra = item
-            for order in itertools.permutations(range(k)):
-                self.do_dot_stream(r, chain_stream(k, extra, order), "explicit")
+            names = ranked_names(k)
+            for nm in (names, names[::-1]):
+                for order in itertools.permutations(range(k)):
+                    self.do_dot_stream(r, chain_stream(k, extra, order, nm), "explicit")
         elif tag == "chainsubsets":
             _, k, lo, hi = item
             shortcuts = [(i, j) for i in range(k) for j in range(i + 2, k)]
@@ -671,13 +700,42 @@ class C20(Check):
     # }}}
 
 
-def chain_stream(k, extra, order):
-    """Statements c0..c(k-1); c(i) depends on c(i+1) (a chain) and, for (i, j) in *extra*, on
-    c(j); listed in the given *order*."""
+def chain_stream(k, extra, order, names=None):
+    """Statements c0..c(k-1) (or *names*); c(i) depends on c(i+1) (a chain) and, for (i, j) in
+    *extra*, on c(j); listed in the given *order*."""
+    if names is None:
+        names = [f"c{i}" for i in range(k)]
     deps = {i: ({i + 1} if i + 1 < k else set()) for i in range(k)}
     for i, j in extra:
         deps[i].add(j)
-    return tuple(N(f"c{i}", [f"c{j}" for j in sorted(deps[i])]) for i in order)
+    return tuple(N(names[i], [names[j] for j in sorted(deps[i])]) for i in order)
+
+
+_RANKED: dict = {}
+
+
+def ranked_names(k):
+    """k ids whose sets iterate in list order under the current PYTHONHASHSEED: the id at
+    position r has hash & 31 == r, so in CPython's small hash tables (8 or 32 slots, no
+    collisions) it sits in slot r.  Used forwards and backwards this makes the iteration order
+    of every dependency set an explored dimension instead of an accident of the hash seed.
+    Verified on all pairs and on the whole set before use."""
+    if k not in _RANKED:
+        assert k <= 8
+        found = {}
+        i = 0
+        while len(found) < k:
+            nm = f"c{i}"
+            r = hash(nm) & 31
+            if r < k and r not in found:
+                found[r] = nm
+            i += 1
+        names = [found[r] for r in range(k)]
+        assert list(set(names)) == names, "set iteration order is not by low hash bits"
+        for a, b in itertools.combinations(names, 2):
+            assert list({b, a}) == [a, b] and list(frozenset([b, a])) == [a, b]
+        _RANKED[k] = names
+    return _RANKED[k]
 
 
 def dag_shape(stream):
